@@ -196,6 +196,31 @@ pub fn run_case(case : &Case, seed : u64, fixed_requests : Option<&Vec<(String, 
                 for _ in 0..4 { valid.push(("GET".to_string(), format!("/files/{}", random_name(&mut rng)), "absent-name".to_string())); }
                 for (r, _) in pair_names.iter().take(4) { valid.push(("GET".to_string(), format!("/rules/{}/{}", r, random_name(&mut rng)), "absent-sources".to_string())); }
                 for _ in 0..2 { valid.push(("GET".to_string(), format!("/rules/{}/{}", random_name(&mut rng), random_name(&mut rng)), "absent-rule".to_string())); }
+                // the same names again with request headers a cache, proxy or browser would add, with a
+                // query string, and as HEAD: absent stays 404 whatever the header section says
+                let base = valid.clone();
+                let nvar = std::cmp::min(base.len(), 10);
+                for _ in 0..nvar
+                {
+                    let (_, p, c) = rng.pick(&base).clone();
+                    let last = p.rsplit('/').next().unwrap_or("").to_string();
+                    let (m, tag) = match rng.below(12)
+                    {
+                        0 => (format!("GET|If-None-Match: \"{}\"", last), "if-none-match"),
+                        1 => ("GET|If-None-Match: *".to_string(), "if-none-match"),
+                        2 => ("GET|If-Match: *".to_string(), "if-match"),
+                        3 => ("GET|If-Modified-Since: Thu, 01 Jan 2099 00:00:00 GMT".to_string(), "if-modified-since"),
+                        4 => ("GET|Range: bytes=0-0".to_string(), "range"),
+                        5 => (format!("GET|If-Range: \"{}\"|Range: bytes=1-", last), "range"),
+                        6 => ("GET|Accept-Encoding: gzip, br|Accept: text/plain;q=0.1".to_string(), "accept"),
+                        7 => ("GET|Cache-Control: only-if-cached, max-stale=99999".to_string(), "cache-control"),
+                        8 => ("GET|Host: example.org|X-Forwarded-For: 10.0.0.1|Connection: keep-alive".to_string(), "proxy"),
+                        9 => ("HEAD".to_string(), "head"),
+                        _ => ("GET".to_string(), "query"),
+                    };
+                    let p = if tag == "query" { format!("{}?{}", p, rng.pick(&["x=1", "download", "name=../../etc/passwd", ""])) } else { p };
+                    valid.push((m, p, format!("{}+{}", c, tag)));
+                }
                 rng.shuffle(&mut valid);
                 // interleave: after every hostile request a valid one must still be answered
                 let share : Vec<&(String, String, &'static str)> = hostile.iter().enumerate().filter(|(i, _)| i % (k + 1) == phase).map(|(_, h)| h).collect();
@@ -283,8 +308,10 @@ pub fn run_case(case : &Case, seed : u64, fixed_requests : Option<&Vec<(String, 
             }
         }
         // expected answer from the reference model, from the path alone
+        let (verb, headers) = match method.split_once('|') { Some((v, h)) => (v, h), None => (method.as_str(), "") };
+        let path = &path.split('?').next().unwrap_or("").to_string();
         let expected : Option<(u16, Option<Vec<u8>>)> =
-            if method != "GET" { None }
+            if verb != "GET" && verb != "HEAD" { None }
             else if let Some(name) = path.strip_prefix("/files/")
             {
                 match cache.get(name) { Some(c) => Some((200, Some(c.clone()))), None => Some((404, None)) }
@@ -303,6 +330,11 @@ pub fn run_case(case : &Case, seed : u64, fixed_requests : Option<&Vec<(String, 
 
         match &expected
         {
+            Some((200, Some(_))) if verb == "HEAD" => {},   // ruler may refuse HEAD (405) or answer it; only "absent => no success" is demanded
+            // conditional / range requests for something that is there: 200 with the exact bytes, or the
+            // answer HTTP defines for that header (nothing of the sort exists today; the property does not forbid it)
+            Some((200, Some(b))) if *status == 304 && body.is_empty() && (headers.contains("If-None-Match") || headers.contains("If-Modified-Since")) => { let _ = b; },
+            Some((200, Some(b))) if *status == 206 && headers.contains("Range") && body.len() <= b.len() && (body.is_empty() || b.windows(body.len()).any(|w| w == &body[..])) => {},
             Some((200, Some(b))) =>
             {
                 if *status != 200
@@ -318,7 +350,7 @@ pub fn run_case(case : &Case, seed : u64, fixed_requests : Option<&Vec<(String, 
             },
             Some((404, _)) =>
             {
-                if *status != 404
+                if *status != 404 && !(verb == "HEAD" && *status == 405)
                 {
                     out.push(Violation{ prop : "C19", sig : format!("C19:absent-or-malformed-but-{}:{}", status, class),
                         detail : format!("request {} {} {}{}: expected 404, got status {} with body {}", i, method, path, when, status, super::super::util::show_bytes(body)) });
